@@ -113,6 +113,7 @@ type Options struct {
 
 type Debug struct {
 	frame           *callFrame
+	tail            bool // the level names a frame that a tail call replaced
 	Name            string
 	What            string
 	Source          string
@@ -695,7 +696,8 @@ func (ls *LState) findLocal(frame *callFrame, no int) string {
 
 func (ls *LState) where(level int, skipg bool) string {
 	dbg, ok := ls.GetStack(level)
-	if !ok {
+	if !ok || dbg.tail {
+		// the caller was replaced by a tail call: there is no position to name
 		return ""
 	}
 	cf := dbg.frame
@@ -1635,7 +1637,7 @@ func (ls *LState) GetStack(level int) (*Debug, bool) {
 	if level == 0 && frame != nil {
 		return &Debug{frame: frame}, true
 	} else if level < 0 && ls.stack.Sp() > 0 {
-		return &Debug{frame: ls.stack.At(0)}, true
+		return &Debug{frame: ls.stack.At(0), tail: true}, true
 	}
 	return &Debug{}, false
 }
